@@ -622,6 +622,13 @@ func genLockTable(repo, out string) {
 						evs = append(evs, "defer-unlock:"+mode)
 						return false
 					}
+					// a deferred call of a method of the same receiver
+					// (say `defer s.purge(ctx)`) runs when the method
+					// returns, in LIFO order with the deferred unlocks
+					if strings.HasPrefix(fn, rn+".") && strings.Count(fn, ".") == 1 {
+						evs = append(evs, "defer-call:"+strings.TrimPrefix(fn, rn+"."))
+						return false
+					}
 				case *ast.CallExpr:
 					fn := exprString(x.Fun)
 					switch {
@@ -686,7 +693,7 @@ func genLockTable(repo, out string) {
 	var b strings.Builder
 	b.WriteString("(* GENERATED by tools/gotables from /repo/core/state_*.go on every run. Do not edit. *)\n")
 	b.WriteString("From Coq Require Import String List.\nImport ListNotations.\nOpen Scope string_scope.\n\n")
-	b.WriteString("(** Type.method -> source-order events: lock:r|w, unlock:r|w, defer-unlock:r|w, store:X, read:X, write:X, range:X, delete:X, index:X, call:X *)\n")
+	b.WriteString("(** Type.method -> source-order events: lock:r|w, unlock:r|w, defer-unlock:r|w, defer-call:X, store:X, read:X, write:X, range:X, delete:X, index:X, call:X *)\n")
 	b.WriteString("Definition lock_table : list (string * list string) := [\n")
 	for i, e := range entries {
 		sep := ";"
